@@ -98,6 +98,9 @@ type ExpSim struct {
 	Exp         *experiment.Experiment
 	Err         error
 	fakeClock   bool
+	// PreTrials > 0: the Experiment object is handed to Execute with a Trials slice of that length already allocated
+	// (a reused experiment object, or one sized by the caller); 0 = nil slice
+	PreTrials int
 	// NoBubble forces the real clock even when a fake one is available (C17 compares both)
 	NoBubble bool
 	// OnEval, when set, observes the population at every evaluator entry
@@ -296,6 +299,12 @@ func (s *ExpSim) Run(lib func(string, func())) {
 		genetics.Verif = hooks
 		defer func() { genetics.Verif = prev }()
 		s.Exp = &experiment.Experiment{Id: 1, Name: "sim"}
+		if s.PreTrials > 0 {
+			s.Exp.Trials = make(experiment.Trials, s.PreTrials)
+			for i := range s.Exp.Trials {
+				s.Exp.Trials[i].Id = -7 - i
+			}
+		}
 		var obs experiment.TrialRunObserver
 		if s.Observer {
 			obs = expObserver{s}
@@ -375,5 +384,9 @@ func DrawExpSim(c *RunCtx, maxTrials, maxGens, maxPop int, parallelAllowed bool)
 
 // Describe renders the experiment shape.
 func (s *ExpSim) Describe() string {
-	return fmt.Sprintf("trials=%d generations=%d solvedAt=%v observer=%t faults=%v %s", s.Opts.NumRuns, s.Opts.NumGenerations, s.SolvedAt, s.Observer, s.Faults, OptSummary(s.Opts))
+	pre := ""
+	if s.PreTrials > 0 {
+		pre = fmt.Sprintf(" preallocatedTrials=%d", s.PreTrials)
+	}
+	return fmt.Sprintf("trials=%d generations=%d solvedAt=%v observer=%t%s faults=%v %s", s.Opts.NumRuns, s.Opts.NumGenerations, s.SolvedAt, s.Observer, pre, s.Faults, OptSummary(s.Opts))
 }
